@@ -149,6 +149,21 @@ Theorem C11_r_once : forall v cfg ops, v_saved v = true -> v_hpages v = true ->
 Proof. exact r_once. Qed.
 Print Assumptions C11_r_once.
 
+(* C11_once without any hypothesis: for EVERY variant, configuration and history -- including
+   histories on which a checked slice operation of the model fails (the model then reports a panic
+   for that call and stops, as the harness does) -- the whole callback log is accepted by the
+   lifecycle automaton: New first, data only while open, exactly one Complete per completed stream,
+   nothing after it.  The characterisation of the open streams needs the state and is given for as
+   long as no call has panicked (rs_dead = false is exactly "no call so far panicked in the model":
+   the sites are the re-slices of checkOverlap cases 2/4/6, overlapExisting and cleanSG; none is
+   reached by any generated case). *)
+Theorem C11_r_once_total : forall v cfg ops,
+  exists ls, lrun l0 (snd (rrun_state v (rinit cfg) ops)) = Some ls /\
+             (rs_dead (fst (rrun_state v (rinit cfg) ops)) = false ->
+              l_open ls = osids (rs_conns (fst (rrun_state v (rinit cfg) ops)))).
+Proof. exact r_once_total. Qed.
+Print Assumptions C11_r_once_total.
+
 (* C11_age (repaired model): FlushWithOptions{T: t, TC: tc} (FlushCloseOlderThan t is t = tc) from
    any state satisfying the invariant.  Every batch handed to a stream starts with a page seen
    before t (the time stamp the stream is given is that page's, or none when the page is not the
